@@ -86,7 +86,8 @@ def parse_ans(a):
         sh, dt = a[3:].split(' ')
         sh = sh[len('shape='):]
         dt = dt[len('data='):]
-        vals = [] if dt == '[]' else [float(x) for x in dt.split(',')]
+        # the Lean model prints a non-integral rational element as `num/den`
+        vals = [] if dt == '[]' else [float(Fraction(x)) if '/' in x else float(x) for x in dt.split(',')]
         return sh, vals
     except ValueError:
         return None
@@ -127,16 +128,16 @@ def resize_def(a, to):
 
 def expand_def(a, axes, spacings, fill=-1):
     """spacing insertion: on every listed axis (extent n, spacing p) the result has extent n + (n-1)*p, source element
-    k sits at position k*(p+1), every other position holds the fill value."""
-    r = a.ndim
-    shp = list(a.shape)
-    step = [1] * r
+    k sits at position k*(p+1), every other position holds the fill value.  Several axes = one insertion after the other
+    (so an axis listed twice is spaced twice: factors multiply)."""
+    out = a
     for ax, p in zip(axes, spacings):
-        ax = ax % r
-        shp[ax] = a.shape[ax] + (a.shape[ax] - 1) * p
-        step[ax] = p + 1
-    out = np.full(shp, fill, dtype=a.dtype)
-    out[tuple(slice(None, None, st) for st in step)] = a
+        ax = ax % a.ndim
+        shp = list(out.shape)
+        shp[ax] = out.shape[ax] + (out.shape[ax] - 1) * p
+        nxt = np.full(shp, fill, dtype=a.dtype)
+        nxt[tuple(slice(None, None, p + 1) if k == ax else slice(None) for k in range(a.ndim))] = out
+        out = nxt
     return out
 
 
@@ -510,6 +511,13 @@ def gen_expand(tier, rng):
                 yield Case('expand shape=%s alist=%s slist=%s' % (fmt(s), fmt(axs), fmt(sp)), H_D,
                            oracle=ans(expand_def(a, axs, sp)), model=False, nontrivial=any(sp),
                            tags=['expand', 'rank=%d' % r, 'axis=list', 'spacing=list', at])
+        # an axis listed twice (both spellings): the insertions compose (expandAxes_* cover repeats)
+        for ax in sample(rng, list(range(r)), 2):
+            sp = [rng.randint(0, 2), rng.randint(1, 2)]
+            axs = [ax, ax - r]
+            yield Case('expand shape=%s alist=%s slist=%s' % (fmt(s), fmt(axs), fmt(sp)), H_D,
+                       oracle=ans(expand_def(a, axs, sp)), model=False, nontrivial=True,
+                       tags=['expand', 'rank=%d' % r, 'axis=list', 'spacing=list', 'alist-repeated'])
 
 
 # ---------------------------------------------------------------------------------------------------------------
